@@ -93,7 +93,8 @@ class Type(Scope):
         if self.parent is None:
             return False
         parent_type = self.parent.get_type()
-        return parent_type != CLASS_TYPE_ID and parent_type < BLOCK_TYPE_ID
+        # (a BLOCK construct has a specification part of its own)
+        return parent_type != CLASS_TYPE_ID and parent_type <= BLOCK_TYPE_ID
 
     def get_diagnostics(self):
         errors = []
